@@ -281,6 +281,12 @@ func c05Case(c *Ctx) {
 			cfg.Restarts = 2
 		}
 		cfg.Crashes = spec
+		if c.Plan.Draw(3) == 0 {
+			// the operator is quick: jobs orphaned by the interruption are still
+			// reacting to it (or still running) when the next mrp starts
+			cfg.QuickRestart = 1 + c.Plan.Draw(12)
+			c.Res.Probes["quick-restarts"]++
+		}
 		r := c.RunOnce(cfg, func(r *Run) { r.StepHooks = append(r.StepHooks, lockHook(r)) })
 		if len(r.Ops) <= 1 && r.Class() == "complete" && r.Inc == 1 {
 			// the interruption point was never reached (run finished earlier)
